@@ -1010,6 +1010,10 @@ func runC09(t gen.Tier, r *gen.Rng, rep *Reporter) {
 	for k, v := range tlvStats {
 		rep.Stat(k, v)
 	}
+	// a composite object that rejected an input earlier (nested templates half decoded)
+	for i := 0; i < t.N(300, 6000); i++ {
+		checkNestedReuse(rep, g, r)
+	}
 }
 
 // linesC09 re-examines the property around given channel-F lines (correspondence
